@@ -116,6 +116,7 @@ fn main() {
                 property: arg(&args, "--property").unwrap_or("C07".into()),
                 seed: arg(&args, "--seed").and_then(|s| s.parse().ok()).unwrap_or(1),
                 nkeys: arg(&args, "--nkeys").and_then(|s| s.parse().ok()).unwrap_or(2),
+                kssplit: arg(&args, "--kssplit").and_then(|s| s.parse().ok()).unwrap_or(0),
                 single_writer: args.iter().any(|x| x == "--single-writer"),
                 allowed_kf: arg(&args, "--kf")
                     .map(|s| s.split(',').filter(|x| !x.is_empty()).map(String::from).collect())
